@@ -140,6 +140,7 @@ def plan_models(doc: dict, man: dict, args: dict) -> list:
     if args.get("import", True):
         acts.append({"a": "import_all"})
     per = int(args.get("per_model", 10))
+    tok.edge = float(args.get("edge", 0.12))
     for name, schema in comps.items():
         ref = f"/components/schemas/{name}"
         ent = (man.get("refs") or {}).get(ref)
@@ -290,6 +291,7 @@ def body_plan(doc: dict, man: dict, man_ep: dict, op: dict, tok: docs.Tok, rng: 
         x["parts"] = parts
         return {"$t": "init", "cls": pi["cls"], "kwargs": kwargs}, x
     tok.take_flags()
+    tok.edge = 0.12 if bt == "json" else 0.0
     try:
         mode_ = rng.choice(["rand", "max", "min"])
         rs_ = docs.resolve(schema, comps) if isinstance(schema, dict) else {}
@@ -299,6 +301,7 @@ def body_plan(doc: dict, man: dict, man_ep: dict, op: dict, tok: docs.Tok, rng: 
             v = docs.instance(schema, comps, tok, mode_)
     except (docs.Bottomless, RecursionError):
         return None
+    tok.edge = 0.0
     if v is None:
         v = docs.instance(schema, comps, tok, "min")
         if v is None:
@@ -354,6 +357,7 @@ def response_plan(doc: dict, man_ep: dict, op: dict, tok: docs.Tok, rng: random.
         x["bytes"] = base64.b64encode(data).decode()
         return {"status": int(st), "headers": marker + [["content-type", mt]], "content": x["bytes"]}, x
     tok.take_flags()
+    tok.edge = 0.12 if not base.startswith("text/") else 0.0
     try:
         mode_ = rng.choice(["rand", "max", "min"])
         rs_ = docs.resolve(schema, comps) if isinstance(schema, dict) else {}
@@ -365,6 +369,7 @@ def response_plan(doc: dict, man_ep: dict, op: dict, tok: docs.Tok, rng: random.
             v = docs.instance(schema, comps, tok, mode_)
     except (docs.Bottomless, RecursionError):
         return None, None
+    tok.edge = 0.0
     if v is None and not docs.nullable(schema, comps):
         return None, None
     x["flags"] = tok.take_flags()
@@ -431,8 +436,11 @@ def plan_ops(doc: dict, man: dict, args: dict) -> list:
                             nonstr.add(f"{loc}:{p['kind']}" if loc == "header" else loc)
                         continue
                     try:
+                        tok.edge = 0.12 if loc == "query" else 0.0
                         v = docs.instance(dp.get("schema", {}), comps, tok, "rand" if ci else "max", 1)
+                        tok.edge = 0.0
                     except (docs.Bottomless, RecursionError):
+                        tok.edge = 0.0
                         ok = False
                         break
                     if v is None:
